@@ -244,6 +244,10 @@ def inverse_topology(outer, update, topology, inverse=None, multi_updates=True):
 
         elif key in update:
             value = update[key]
+            if isinstance(path, dict) and not isinstance(value, dict):
+                # a variable wired by a dictionary that only names its
+                # node: the same as wiring it by that path
+                path = tuple(path.get('_path', ()))
             if isinstance(path, dict):
                 path = path.copy()
                 if '_path' in path:
